@@ -346,7 +346,8 @@ async def _main(env, case, loop, want_db):
         o_cancel, o_close = ex._cancel, ex.close
 
         def unterminated():
-            return sorted(n for n, s in wf.steps.items() if not s.terminated)
+            """every step's (name, terminated, status code), in name order"""
+            return [[n, bool(s.terminated), int(s.status)] for n, s in sorted(wf.steps.items())]
 
         async def cancel(tasks):
             ev = ["cancel", bool(ex._closed), unterminated()]
